@@ -96,12 +96,22 @@ pub fn run(input: &[u8], rec: &mut Rec) {
     for (kind, list) in [("imp", imported), ("exp", exported)] {
         for fi in list.into_iter().take(3) {
             let label = format!("{}.{}", kind, fi);
-            let r = guarded(|| -> Result<Vec<u8>, String> {
+            let r = guarded(|| -> Result<(Vec<u8>, bool), String> {
                 let (mut m, ids) = parse(input).ok_or("reparse failed")?;
                 let fid = ids.funcs[fi];
                 let trace_ty = m.types.add(&[ValType::I32], &[]);
                 let (trace, _) = m.add_import_func("wv", "trace", trace_ty);
                 let results = m.types.get(m.funcs.get(fid).ty()).results().to_vec();
+                // an exported function without results is sometimes replaced by an empty body (a legitimate body:
+                // it does nothing), sometimes by the tracing one
+                let empty_body = kind == "exp" && results.is_empty() && (wv_gen::rng::fnv64(input) as usize + fi) % 4 == 1;
+                if empty_body {
+                    let r = m.replace_exported_func(fid, |_| {});
+                    r.map_err(|e| format!("{:#}", e))?;
+                    let mut out = m.emit_wasm();
+                    out.extend_from_slice(b"");
+                    return Ok((out, true));
+                }
                 let scratch = m.locals.add(ValType::I32);
                 // a third of the import replacements: the import entry is taken out of the import table and put
                 // back first (same module, field and function - it is then the last entry), as a tool that
@@ -127,10 +137,15 @@ pub fn run(input: &[u8], rec: &mut Rec) {
                     m.replace_exported_func(fid, |(b, args)| build_body(b, trace, &results, scratch, args))
                 };
                 r.map_err(|e| format!("{:#}", e))?;
-                Ok(m.emit_wasm())
+                Ok((m.emit_wasm(), false))
             });
             match r {
-                Ok(Ok(out)) => rec.push_b(&format!("out.{}", label), &out),
+                Ok(Ok((out, empty))) => {
+                    rec.push_b(&format!("out.{}", label), &out);
+                    if empty {
+                        rec.push_n(&format!("empty.{}", label), 1);
+                    }
+                }
                 Ok(Err(e)) => rec.push_s(&format!("err.{}", label), &e),
                 Err(p) => rec.push_s(&format!("panic.{}", label), &p),
             }
